@@ -255,7 +255,13 @@ impl io::BufRead for SimBufRead {
         if let Some(at) = self.cfg.fail_at {
             if self.exposed >= at {
                 self.hard_error_fired = true;
-                return Err(io::Error::new(io::ErrorKind::ConnectionReset, "simulated read error"));
+                // any kind a reader may report - except Interrupted, which a
+                // consumer must retry (and this error persists)
+                const KINDS: [io::ErrorKind; 6] = [
+                    io::ErrorKind::ConnectionReset, io::ErrorKind::UnexpectedEof, io::ErrorKind::TimedOut,
+                    io::ErrorKind::WouldBlock, io::ErrorKind::Other, io::ErrorKind::InvalidData,
+                ];
+                return Err(io::Error::new(KINDS[(at % 6) as usize], "simulated read error"));
             }
         }
         let mut n = match self.cfg.mode {
